@@ -47,6 +47,20 @@ struct StackNode<W, R, T> {
     next: Option<Rc<StackNode<W, R, T>>>,
 }
 
+impl<W, R, T> Drop for StackNode<W, R, T> {
+    fn drop(&mut self) {
+        // unlink iteratively: the derived drop glue recurses once per node and overflows
+        // the native stack on long stacks
+        let mut next = self.next.take();
+        while let Some(node) = next {
+            match Rc::try_unwrap(node) {
+                Ok(mut node) => next = node.next.take(),
+                Err(_) => break,
+            }
+        }
+    }
+}
+
 impl<W, R, T> StackNode<W, R, T> {
     fn first(value: Rc<ManagedXValue<W, R, T>>) -> Rc<Self> {
         Rc::new(Self { value, next: None })
